@@ -866,6 +866,10 @@ class NumpyArray(Content):
             arr = arr.astype(dtype)
         return arr
 
+    def __buffer__(self, flags):
+        # stands in for pybind11's def_buffer (PEP 688); a copy of the logical array
+        return memoryview(np.ascontiguousarray(self._numpy()))
+
     shape = property(lambda self: self._info()["shape"])
     strides = property(lambda self: self._info()["strides"])
     itemsize = property(lambda self: self._info()["itemsize"])
@@ -1385,6 +1389,8 @@ def describe(layout):
                    contents=[describe(k) for k in kids])
     elif cls == "Record":
         out.update(at=rest_i[0], array=describe(kids[0]))
+    elif cls == "VirtualArray":
+        return describe(layout.array)
     else:
         raise NotImplementedError(cls)
     return out
